@@ -73,17 +73,36 @@ func TestC33(t *testing.T) {
 	}
 	r := ev.Start("C33", ev.LevelMC, 75*time.Second, 11*time.Minute)
 	horizon := envInt("VERIF_K5_HORIZON", 40)
-	// quick: one scenario; thorough: the same with one more appended log, plus a ledger
-	// whose log count is a multiple of the page size (last page full, HasMore=false).
-	scenarios := []config{{InitLogs: 3, MaxAppends: 1, PageSize: 2, Horizon: horizon}}
+	// Two kinds of exporter stack (simplest first):
+	//   unbatched: Manager -> DriverFacade -> recording exporter (a page = one Accept call)
+	//   batched:   Manager -> DriverFacade -> the real drivers.Batcher -> recording exporter;
+	//              a page is cut in sub-batches (by batching.maxItems, and in the flush-timer
+	//              scenario also by the flush interval), each parked / acknowledged / failed
+	//              on its own.
+	// quick: one scenario of each kind; thorough: the unbatched one with one more appended
+	// log, a ledger whose log count is a multiple of the page size (last page full,
+	// HasMore=false), the batched one, and a batched one whose pages (3 logs) are cut by
+	// maxItems=2 AND by the flush timer.
+	// The scenarios are explored depth-major (every scenario at deviation level n before any
+	// at level n+1): a run cut by its time budget loses depth, never a scenario.
+	scenarios := []config{
+		{InitLogs: 3, MaxAppends: 1, PageSize: 2, Horizon: horizon},
+		{InitLogs: 3, MaxAppends: 1, PageSize: 2, Horizon: horizon, Batching: &batchSpec{MaxItems: 1}},
+	}
 	if r.Thorough() {
 		scenarios = []config{
 			{InitLogs: 3, MaxAppends: 2, PageSize: 2, Horizon: horizon},
 			{InitLogs: 4, MaxAppends: 1, PageSize: 2, Horizon: horizon},
+			{InitLogs: 3, MaxAppends: 1, PageSize: 2, Horizon: horizon, Batching: &batchSpec{MaxItems: 1}},
+			{InitLogs: 3, MaxAppends: 1, PageSize: 3, Horizon: horizon, Batching: &batchSpec{MaxItems: 2, FlushTimer: true}},
 		}
 	}
 	if v := os.Getenv("VERIF_K5_LOGS"); v != "" {
-		scenarios = []config{{InitLogs: envInt("VERIF_K5_LOGS", 3), MaxAppends: envInt("VERIF_K5_APPENDS", 1), PageSize: 2, Horizon: horizon}}
+		one := config{InitLogs: envInt("VERIF_K5_LOGS", 3), MaxAppends: envInt("VERIF_K5_APPENDS", 1), PageSize: uint64(envInt("VERIF_K5_PAGE", 2)), Horizon: horizon}
+		if mi := envInt("VERIF_K5_MAXITEMS", 0); mi > 0 {
+			one.Batching = &batchSpec{MaxItems: mi, FlushTimer: os.Getenv("VERIF_K5_FLUSH") != ""}
+		}
+		scenarios = []config{one}
 	}
 	maxBound := envInt("VERIF_K5_BOUND", 3)
 	extraLevel := r.Thorough() && os.Getenv("VERIF_K5_NOEXTRA") == ""
@@ -124,38 +143,44 @@ func TestC33(t *testing.T) {
 	}()
 
 	var reports []*scenarioReport
-	anyUnknown := false
+	frontier := make([][]task, len(scenarios))
 	for si, cfg := range scenarios {
-		e := newExplorer(r, cfg, workers, known)
-		rep := &scenarioReport{e: e, cfg: cfg, completed: -1}
-		reports = append(reports, rep)
-		tasks := []task{{}}
-		for level := 0; level <= maxBound && len(tasks) > 0; level++ {
+		reports = append(reports, &scenarioReport{e: newExplorer(r, cfg, workers, known), cfg: cfg, completed: -1})
+		frontier[si] = []task{{}}
+	}
+depthMajor:
+	for level := 0; level <= maxBound; level++ {
+		for si, rep := range reports {
+			e := rep.e
+			tasks := frontier[si]
+			if len(tasks) == 0 {
+				if rep.completed == level-1 {
+					rep.completed = level // no execution has that many choice points left
+				}
+				continue
+			}
 			t0 := time.Now()
 			n := len(tasks)
 			next, ok := e.runLevel(t, level, tasks, level < maxBound || (extraLevel && si == 0), false)
 			rep.levels = append(rep.levels, fmt.Sprintf("deviations=%d: %d schedules in %.1fs (completed=%v)", level, n, time.Since(t0).Seconds(), ok))
 			if !ok {
-				break
+				break depthMajor
 			}
 			rep.completed = level
 			rep.lastTasks = next
 			if e.unknownViolation() {
 				rep.stoppedOnV = true
-				anyUnknown = true
-				break
+				break depthMajor
 			}
-			tasks = next
-		}
-		if anyUnknown || e.abort.Load() || e.expired.Load() {
-			break
+			frontier[si] = next
 		}
 	}
+	frontier = nil
 
 	// Extra, explicitly NON-exhaustive phase (thorough only): with the time that is left,
 	// a uniformly spread sample of the executions with maxBound+1 deviations.
 	extra := map[string]any{"ran": false}
-	allDone := len(reports) == len(scenarios)
+	allDone := true
 	for _, rep := range reports {
 		if rep.completed != maxBound || rep.stoppedOnV {
 			allDone = false
@@ -182,8 +207,9 @@ func TestC33(t *testing.T) {
 	cov := ev.Coverage{}
 	var states, transitions, schedules, confirms, horizonHits, quiescent, violating, finals int64
 	completed := maxBound
-	exhaustive := len(reports) == len(scenarios)
+	exhaustive := true
 	var perScenario []any
+	batchedScenarios := 0
 	var samples []map[string]any
 	viols := map[string]any{}
 	outcomes := map[string]int64{}
@@ -222,7 +248,25 @@ func TestC33(t *testing.T) {
 			"horizon_hit": e.horizonHits.Load(), "max_parked_calls": e.maxPending.Load(),
 			"distinct_final_outcomes": len(e.finals), "outcomes_per_deviation_level": perLevel,
 			"stopped_after_violation": rep.stoppedOnV,
+			"exporter_stack":          stackName(rep.cfg),
+			"batching_layer":          batchingCoverage(rep),
 		})
+		if rep.cfg.Batching != nil {
+			batchedScenarios++
+			// vacuity guards of the batching dimension: once every single deviation has been
+			// tried, a page must have been cut in several sub-batches, and the exporter must
+			// have failed one sub-batch and acknowledged a later one of the same page
+			if rep.completed >= 0 && !rep.stoppedOnV && e.execsSplit.Load() == 0 {
+				r.EngineError(fmt.Sprintf("vacuous: batched scenario %s: no page ever reached the exporter as more than one sub-batch (the batching layer is not in the explored stack?)", stackName(rep.cfg)))
+			}
+			if rep.completed >= 1 && !rep.stoppedOnV && e.execsPartial.Load() == 0 {
+				r.EngineError(fmt.Sprintf("vacuous: batched scenario %s: no execution had a sub-batch failed by the exporter and a later sub-batch of the same page acknowledged", stackName(rep.cfg)))
+			}
+		}
+		if n := e.panics.Load(); n > 0 {
+			r.Note(fmt.Sprintf("scenario %s: %d executions ended because a goroutine of the code under test PANICKED (in production: process crash; not a C33 violation in itself, the persisted position is judged up to the crash): %s | first at deviations=%d choices=%v",
+				stackName(rep.cfg), n, e.panicWhat, e.panicLevel, choicesInts(e.panicChoices)))
+		}
 		if len(samples) < 8 {
 			samples = append(samples, e.samples...)
 		}
@@ -232,7 +276,7 @@ func TestC33(t *testing.T) {
 		exhaustive = false
 	}
 	cov["states"] = states
-	cov["states_are"] = "distinct canonical harness states per scenario (parked calls with cancellation/epoch flags, pipelines row, log count, acknowledged id, reset epoch, command in flight, last command result)"
+	cov["states_are"] = "distinct canonical harness states per scenario (parked calls with cancellation/epoch flags, pipelines row, log count, acknowledged prefix, reset epoch, command in flight, last command result; batched scenarios also: ids acknowledged beyond the prefix, prefix handed to the exporter, pages handed over / answered ok by the batching layer)"
 	cov["transitions"] = transitions
 	cov["schedules"] = schedules
 	cov["traces_validated_against_impl"] = schedules + confirms
@@ -248,26 +292,61 @@ func TestC33(t *testing.T) {
 	cov["distinct_final_outcomes"] = finals
 	cov["scenarios"] = perScenario
 	cov["scenarios_planned"] = len(scenarios)
+	cov["batched_scenarios"] = batchedScenarios
+	cov["exploration_order"] = "depth-major: every scenario at deviation level n before any scenario at level n+1"
+	cov["rule"] = "every choice sequence with <= deviation_bound_completed non-default choices, per scenario; choices = release any parked environment call with OK or (StorePipelineState, UpdatePipeline, ListLogs, Driver.Start, Driver.Accept) with an error, advance time to the next timer class, issue Start/Stop/Reset/RestartManager, append a log. In the batched scenarios Driver.Accept is one SUB-BATCH cut by the real drivers.Batcher, so the sub-batches of one page are acknowledged / failed independently. Oracles: (1) persisted last_log_id <= acked, acked = every log 1..acked acknowledged by the exporter since the last reset; (2) every page the pipeline hands over (= batch, unbatched) starts <= acked+1, has consecutive existing ids; batched: every sub-batch reaching the exporter has strictly increasing existing ids; (4) started + idle + healthy exporter => acked = number of logs"
 	cov["sampled_extra_level"] = extra
 	cov["workers"] = workers
 	cov["samples"] = samples
 	cov["exhaustive"] = exhaustive
 	cov["time_budget_hit"] = r.Expired()
+	if batchedScenarios == 0 && os.Getenv("VERIF_K5_LOGS") == "" {
+		r.EngineError("vacuous: no scenario with the batching layer in the explored stack")
+	}
 	if quiescent == 0 && len(viols) == 0 && !r.HasEngineError() {
 		r.EngineError("vacuous: no execution reached the quiescent state where liveness is judged")
 	}
 	exitCode = r.Finish(cov, []string{
-		"environment = in-memory Storage / LogFetcher / Driver fakes whose every call parks on a gate; the real Manager, PipelineHandler and DriverFacade run unmodified except that manager.go is compiled with sync.Mutex replaced by a FIFO channel mutex (go -overlay, regenerated from the current file on every run)",
-		"one ledger, one exporter, one pre-existing enabled pipeline; page size 2; quick: 3 logs + <=1 appended; thorough: 3 logs + <=2 appended and 4 logs + <=1 appended",
+		"environment = in-memory Storage / LogFetcher / Driver fakes whose every call parks on a gate; the real Manager, PipelineHandler, DriverFacade and (batched scenarios) drivers.DriverFactoryWithBatching / drivers.Batcher / go.vallahaye.net/batcher run unmodified except that manager.go and drivers/batcher.go are compiled with sync.Mutex replaced by a FIFO channel mutex (go -overlay, regenerated from the current files on every run)",
+		"one ledger, one exporter, one pre-existing enabled pipeline. Unbatched scenarios: page size 2; quick: 3 logs + <=1 appended; thorough: 3 logs + <=2 appended and 4 logs + <=1 appended. Batched scenarios: 3 logs + <=1 appended; page size 2 with batching.maxItems=1 and no flush timer (quick and thorough); page size 3 with batching.maxItems=2 and a 150s flush interval (thorough): the last sub-batch of a page waits for the flush timer",
+		"batched scenarios: a non-gated observer between the DriverFacade and the Batcher records the pages the pipeline hands over and what the batching layer answers; it recovers a panic of the export goroutine (in production the process would die): such an execution ends there with outcome code-under-test-panicked, reported under observations, not as a C33 violation",
+		"batched scenarios, below the batching layer: a sub-batch may follow a failed one (the Batcher cuts and sends sub-batches regardless of the fate of the previous one; the pipeline then retries the whole page), so the exporter may acknowledge logs 3..4 before 1..2 are acknowledged by the retry; this transient is allowed (at-least-once delivery, the retry re-exports the page in order), what is demanded is that the pipeline position (next page, persisted id) never passes a log the exporter has not acknowledged",
+		"batched scenarios: Stop/Reset/Restart are not issued while the live pipeline is parked in ListLogs: the queued stop would cancel the export context while the export goroutine is still pushing the logs of the page one by one into the batcher (`select { b.in <- op; <-ctx.Done() }`), a scheduling race plus a runtime coin flip per log deciding which logs of the abandoned page still reach the exporter (possibly not a prefix of the page); the pipeline is stopping and cannot move its position, these outcomes are NOT explored; the same commands are issued before the fetch and while a sub-batch is at the exporter",
 		"the fake ListLogs evaluates the query it receives (filter tree, order, page size) instead of assuming `id > last`",
 		"an injected error on StorePipelineState / UpdatePipeline / ListLogs / Accept / Driver.Start means the call had no effect; 'took effect but reported an error' is not modelled; GetPipeline, OpenLedger, ListEnabledPipelines and Driver.Stop never fail",
 		"external commands (StartPipeline, StopPipeline, ResetPipeline, manager restart) are issued one at a time: a new command waits for the previous one to return",
 		"Stop/Reset/Restart are not issued in two kinds of state where the request would race with a pipeline `select { <-stopChannel; <-time.After(0) }` having both cases ready (pipeline blocked publishing its position with more logs to fetch; manager in the middle of a synchronisation that starts the pipeline); the same commands are issued in the neighbouring states",
-		"time: pull/retry period 1000s, sync period 100000s, driver start retry 2s (hard-coded in manager.go); 'advance time' fires the earliest pending timer class, so a sync tick is only explored when no pull/retry timer is pending",
+		"time: driver start retry 2s (hard-coded in manager.go), batching flush interval 150s (flush-timer scenario only), pull/retry period 10000s, sync period 1000000s; 'advance time' fires the earliest pending timer class, so a sync tick is only explored when no pull/retry timer is pending",
 		"epoch rule: acknowledgements are counted since the last successful reset (UpdatePipeline clearing last_log_id, or ResetPipeline returning nil); Accept calls that reached the exporter before the reset do not count",
 		"executions cut by the horizon say nothing about liveness (counted in horizon_hit)",
 		"explored: all choice sequences with at most deviation_bound_completed non-default choices (default = release the oldest parked call with OK, else advance time); not a proof for longer deviation sequences, several pipelines/exporters, or the DeletePipeline/UpdateExporter/CreatePipeline paths",
 	})
+}
+
+func stackName(c config) string {
+	if c.Batching == nil {
+		return fmt.Sprintf("unbatched(logs=%d+%d,page=%d)", c.InitLogs, c.MaxAppends, c.PageSize)
+	}
+	f := "none"
+	if c.Batching.FlushTimer {
+		f = periodFlush.String()
+	}
+	return fmt.Sprintf("batched(logs=%d+%d,page=%d,maxItems=%d,flush=%s)", c.InitLogs, c.MaxAppends, c.PageSize, c.Batching.MaxItems, f)
+}
+
+func batchingCoverage(rep *scenarioReport) any {
+	if rep.cfg.Batching == nil {
+		return "not in the stack"
+	}
+	e := rep.e
+	return map[string]any{
+		"config":                            rep.cfg.Batching,
+		"pages_handed_over_by_the_pipeline": e.pagesTotal.Load(),
+		"executions_with_a_page_cut_in_several_sub_batches":                       e.execsSplit.Load(),
+		"executions_with_a_failed_sub_batch_then_an_acknowledged_one_in_one_page": e.execsPartial.Load(),
+		"executions_where_the_batching_layer_answered_success_for_such_a_page":    e.execsSwallowed.Load(),
+		"executions_ended_by_a_panic_of_the_code_under_test":                      e.panics.Load(),
+	}
 }
 
 func replayFile(t *testing.T, path string) int {
